@@ -268,6 +268,10 @@ class Live:
             return "ok"
         if k in ("new_cells_obj", "set_formula_obj", "set_param_obj", "new_space_obj"):
             return self._apply_obj(k, op)
+        if k.startswith("batch_") or k == "copy_space":
+            # one call that creates several members (batch_api: pandas / csv / module imports, Space.copy)
+            from . import batch_api
+            return batch_api.apply(self, k, op)
         return "bad-op"
 
     def _apply_obj(self, k, op):
